@@ -90,7 +90,8 @@ CFG = dict(
                   "encoding/json); cross-validated on every run against encoding/json (json.Valid + surrogate pairing, decoded token streams) "
                   "on observed lines, byte-mutants of them and a hand-written corpus",
                   "Check/C01.v compares numbers that stem from an encoding/json oracle text by canonical value (mantissa, exponent), all other "
-                  "members textually; the runtime's frame (file, line) of the call site is the oracle for source",
+                  "members textually, except that where encoding/json fails the check demands a (non-empty) JSON string and counts another "
+                  "wording than the model's as drift; the runtime's frame (file, line) of the call site is the oracle for source",
                   "log/slog's Value.Resolve / Group / Record.Add[Attrs] decide which attribute tree reaches the handler; the harness reads the tree "
                   "back from the slog values it passes in"],
     assumptions=["time.AppendFormat(RFC3339Nano) yields printable ASCII without quote / backslash (wf_record, checked on every case)",
